@@ -61,6 +61,8 @@ class Interp(object):
         self.max_paths = 400000
         self.modular = {}       # (cls, name) -> True: evaluate once in isolation, abstract numeric results
         self.modular_cache = {}
+        self.trace_classes = set(['ExcludeRegionState', 'GcodeHandlers', 'RetractionState', 'ExcludeRegionPlugin',
+                                  'StreamProcessor'])
         from . import externals
         externals.install(self)
 
@@ -260,6 +262,8 @@ class Interp(object):
         if depth > MAX_DEPTH:
             raise AnalysisError('inlining depth exceeded at %s.%s' % (cls, fn.name))
         frame = Frame(cls, mod, fn, depth)
+        if cls in self.trace_classes:
+            st.ev('call', cls, fn.name, depth)
         a = fn.args
         if a.kwonlyargs or a.posonlyargs:
             raise Unsupported('kw-only/pos-only parameters in %s' % frame.qual())
